@@ -30,14 +30,30 @@ Definition scol_eqb (a b : scol) : bool :=
   && Bool.eqb (sc_nullable a) (sc_nullable b) && Bool.eqb (sc_pk a) (sc_pk b) && Bool.eqb (sc_autoinc a) (sc_autoinc b)
   && beq_bytes (sc_default a) (sc_default b) && beq_bytes (sc_generated a) (sc_generated b)
   && beq_bytes (sc_onupdate a) (sc_onupdate b) && Bool.eqb (sc_virtual a) (sc_virtual b)
-  && beq_bytes (sc_comment a) (sc_comment b) && Bool.eqb (sc_hidden a) (sc_hidden b).
+  && beq_bytes (sc_comment a) (sc_comment b) && Bool.eqb (sc_hidden a) (sc_hidden b) && Bool.eqb (sc_syshidden a) (sc_syshidden b).
+
+Definition ftinfo_eqb (a b : ftinfo) : bool :=
+  beq_bytes (ft_config a) (ft_config b) && beq_bytes (ft_pos a) (ft_pos b) && beq_bytes (ft_doccount a) (ft_doccount b)
+  && beq_bytes (ft_global a) (ft_global b) && beq_bytes (ft_rowcount a) (ft_rowcount b) && (ft_keytype a =? ft_keytype b)
+  && beq_bytes (ft_keyname a) (ft_keyname b) && list_eqb N.eqb (ft_keypos a) (ft_keypos b).
 
 Definition sindex_eqb (a b : sindex) : bool :=
   beq_bytes (ix_name a) (ix_name b) && list_eqb N.eqb (ix_tags a) (ix_tags b) && Bool.eqb (ix_unique a) (ix_unique b)
-  && beq_bytes (ix_comment a) (ix_comment b) && list_eqb N.eqb (ix_prefix a) (ix_prefix b) && (ix_flags a =? ix_flags b).
+  && beq_bytes (ix_comment a) (ix_comment b) && list_eqb N.eqb (ix_prefix a) (ix_prefix b)
+  && Bool.eqb (ix_userdef a) (ix_userdef b) && Bool.eqb (ix_spatial a) (ix_spatial b) && Bool.eqb (ix_fulltext a) (ix_fulltext b)
+  && Bool.eqb (ix_vector a) (ix_vector b) && beq_bytes (ix_predicate a) (ix_predicate b) && ftinfo_eqb (ix_ft a) (ix_ft b)
+  && (ix_vecdist a =? ix_vecdist b).
 
 Definition scheck_eqb (a b : scheck) : bool :=
-  beq_bytes (ck_name a) (ck_name b) && beq_bytes (ck_expr a) (ck_expr b) && Bool.eqb (ck_enforced a) (ck_enforced b).
+  beq_bytes (ck_name a) (ck_name b) && beq_bytes (ck_expr a) (ck_expr b) && Bool.eqb (ck_enforced a) (ck_enforced b)
+  && Bool.eqb (ck_notvalid a) (ck_notvalid b).
+
+Definition sfk_eqb (a b : sfk) : bool :=
+  beq_bytes (fk_name a) (fk_name b) && beq_bytes (fk_table a) (fk_table b) && beq_bytes (fk_index a) (fk_index b)
+  && list_eqb N.eqb (fk_cols a) (fk_cols b) && beq_bytes (fk_reftable a) (fk_reftable b) && beq_bytes (fk_refindex a) (fk_refindex b)
+  && list_eqb N.eqb (fk_refcols a) (fk_refcols b) && (fk_onupdate a =? fk_onupdate b) && (fk_ondelete a =? fk_ondelete b)
+  && list_eqb beq_bytes (fk_unres a) (fk_unres b) && list_eqb beq_bytes (fk_unresref a) (fk_unresref b)
+  && Bool.eqb (fk_notvalid a) (fk_notvalid b) && (fk_match a =? fk_match b).
 
 Definition sschema_eqb (a b : sschema) : bool :=
   list_eqb scol_eqb (s_cols a) (s_cols b) && list_eqb Nat.eqb (s_pk_ord a) (s_pk_ord b)
@@ -54,11 +70,65 @@ Section WF.
     /\ (sc_pk c = true -> sc_nullable c = false)            (* constraintsFromSerialColumn: a primary-key column is NOT NULL *)
     /\ parse_type (type_string (sc_ty c)) = Some (sc_ty c). (* the type string parses back to the same type *)
 
+  (* serializeFullTextInfo / serializeVectorInfo are only called for fulltext / vector indexes, and only L2Squared has a code *)
+  Definition wf_index (ix : sindex) : Prop :=
+    (ix_fulltext ix = false -> ix_ft ix = ft_zero)
+    /\ (ix_vector ix = true -> ix_vecdist ix = 1)
+    /\ (ix_vector ix = false -> ix_vecdist ix = 0).
+
   Definition wf_schema (s : sschema) : Prop :=
     (forall c, In c (s_cols s) -> wf_col c)
     /\ (keyless s = true -> s_pk_ord s = [])                (* no primary-key columns: no key ordinals *)
     /\ (keyless s = false ->                                (* a keyed table does not end in columns that look like the keyless markers *)
         keyless_serial {| fs_cols := map (ser_col type_string) (s_cols s); fs_key_cols := []; fs_indexes := []; fs_checks := [];
                           fs_collation := 0; fs_comment := None; fs_rowsize := 0 |} = false)
-    /\ (forall ix t, In ix (s_indexes s) -> In t (ix_tags ix) -> In t (map sc_tag (s_cols s))).  (* indexes are over columns of the table *)
+    /\ (forall ix t, In ix (s_indexes s) -> In t (ix_tags ix) -> In t (map sc_tag (s_cols s)))  (* indexes are over columns of the table *)
+    /\ (forall ix, In ix (s_indexes s) -> wf_index ix).
 End WF.
+
+(* ---- the decidable class of DDL runs for which tags stay pairwise distinct ----
+   [create_safe]: a CREATE TABLE that re-creates a table HEAD still has (dropped from the working root) re-uses HEAD's tags for
+   the shared columns; the statement is safe when none of those tags is in use in the working root at that moment.
+   This excludes exactly the runs in which a re-used tag has meanwhile been handed out again (ADD COLUMN only avoids the
+   working root's tags) — the class of the finding tags:duplicate-tag-after-drop-addcol-recreate. *)
+Section Safe.
+  Variable rand_seq : bytes -> bytes -> list N -> N -> N -> nat -> N.
+
+  Definition create_safe (s : st) (d : ddl) : bool :=
+    match d with
+    | Create t news =>
+        if negb (names_distinct (map fst news)) then true else       (* rejected anyway *)
+        match lookup t (work s), lookup t (head s) with
+        | None, Some hc => forallb (fun c => negb (mem (c_tag c) (root_tags (work s) ++ other s))) (shared_cols hc news)
+        | _, _ => true
+        end
+    | _ => true
+    end.
+
+  Fixpoint safe_run (fuel : nat) (s : st) (ds : list ddl) : bool :=
+    match ds with
+    | [] => true
+    | d :: ds' => create_safe s d && match step rand_seq fuel s d with Some s' => safe_run fuel s' ds' | None => true end
+    end.
+
+  (* the states a run goes through *)
+  Fixpoint reached (fuel : nat) (s : st) (ds : list ddl) : list st :=
+    s :: match ds with
+         | [] => []
+         | d :: ds' => match step rand_seq fuel s d with Some s' => reached fuel s' ds' | None => [] end
+         end.
+End Safe.
+
+(* a purely syntactic sufficient condition (no tags, no random source): no CREATE TABLE of a table that HEAD has while the
+   working root does not.  [hn], [wn]: table names of HEAD and of the working root. *)
+Definition mem_name (t : bytes) (l : list bytes) : bool := existsb (beq_bytes t) l.
+Fixpoint no_recreate (hn wn : list bytes) (ds : list ddl) : bool :=
+  match ds with
+  | [] => true
+  | Create t news :: ds' =>
+      if negb (names_distinct (map fst news)) || mem_name t wn then no_recreate hn wn ds'
+      else negb (mem_name t hn) && no_recreate hn (t :: wn) ds'
+  | DropTable t :: ds' => no_recreate hn (filter (fun n => negb (beq_bytes n t)) wn) ds'
+  | Commit :: ds' => no_recreate wn wn ds'
+  | _ :: ds' => no_recreate hn wn ds'
+  end.
